@@ -74,7 +74,9 @@ def execute(
     Raises:
         RuntimeError: on invalid operation.
     """
-    instrumentation = instrumentation or Instrumentation()
+    instrumentation = (
+        Instrumentation() if instrumentation is None else instrumentation
+    )
     runtime = runtime or BlockingRuntime()
 
     operation, root_type = get_operation_with_type(
